@@ -461,4 +461,14 @@ pub fn run(r: &mut Runner) {
         copy_source_case(c, &bucket, &key, version.as_deref())
     });
     r.search("content-type", r.scale(60_000, 2_000_000), 128, content_type_case);
+    if !r.quick() || r.replay.is_some() {
+        let texts: [(u8, &str); 22] = [
+            (0, "bytes=0-499"), (0, "bytes=-500"), (0, "bytes=9500-"), (0, "bytes=0-0"), (0, "bytes=18446744073709551615-"), (0, "bytes= 1-2"), (0, "bytes=-"),
+            (1, "1985-04-12T23:20:50.52Z"), (1, "1996-12-19T16:39:57-08:00"), (1, "Tue, 29 Apr 2014 18:30:38 GMT"), (1, "1515531081.123"), (1, "-86400"), (1, "0"), (1, "9999-12-31T23:59:59.999Z"),
+            (2, "bucket/key"), (2, "/bucket/a%2Fb?versionId=v1"), (2, "arn:aws:s3:us-west-2:123456789012:accesspoint/my-access-point/object/reports/january.pdf"), (2, "bucket/100%2525"),
+            (3, "text/plain"), (3, "application/xml; charset=utf-8"), (3, "multipart/form-data; boundary=\"a b\""), (3, "*/*"),
+        ];
+        let seeds: Vec<Vec<u8>> = texts.iter().map(|(sel, t)| { let mut v = vec![*sel]; v.extend_from_slice(t.as_bytes()); v }).collect();
+        r.fuzz("text_parsers", r.fuzz_runs(4_000_000), 256, &seeds);
+    }
 }
